@@ -29,4 +29,12 @@ PROPS = {
         "trusted_base": ["serde attribute glue (untagged, try_from, deserialize_with) is tied by correspondence only (JSON stream), not proved"],
         "assumptions": ["element type deserialises exactly from a JSON string (harness uses String) for the JSON theorems"],
     },
+    "C12": {
+        "translate": True,
+        "diff_is_violation": ["ops", "big", "new", "cred", "check"],
+        "trivial": ["bad-request", "size"],
+        "rule": "streams: (1) corpus; (2) EXHAUSTIVE per-byte table: every (byte value 0..255, bit offset 0..7, written value) through the public set/get on a list whose other bytes are random, all 24 entries read back; boundary indices incl. len, len+1, usize::MAX; (3) random write/read sequences (length <= 40 quick / 200 thorough) on 1..6-byte lists obtained through the public decoder; new() around the minimum and around multiples of 8; histories on full-size lists (131072.. entries); encode/decode round trips; credential-level set_entry/set_credential_status/entry histories for both purposes; the full check_status_with_status_list_2021 decision table (3 modes x 3 status kinds x id match x 2x2 purposes x 7 indices). Non-trivial = reply is not bad-request/size; distinct request lines.",
+        "trusted_base": ["gzip (flate2) + base64 codec: abstract in the model (hypothesis dec(enc l)=l), exercised on every run by the roundtrip stream", "serde/Url glue of StatusList2021Entry/Credential (correspondence only)"],
+        "assumptions": ["byte vectors are well formed (every element < 256), which holds for every Box<[u8]>"],
+    },
 }
